@@ -698,6 +698,10 @@ class XmlPeriod(UserString):
 
         return NotImplemented
 
+    def __hash__(self) -> int:
+        """Return the hash of the period units, consistent with __eq__."""
+        return hash(self._period)
+
 
 class XmlHexBinary(bytes):
     """Subclass bytes to infer base16 format.
